@@ -12,23 +12,23 @@ TRUST = ("trusted: Lean 4.33 kernel; axioms propext / Classical.choice / Quot.so
 
 CLAIMS = {
     "C01": dict(
-        text="Lean theorems (G/Worklist): the generate-until-done work list registers exactly the transitive closure of helper requests, generates each registered key exactly once, and terminates when that closure is finite — for every request function and plugin order. Type-correctness of the emitted text is decided by the real Go type checker on generated programs: all 33 plugins in every call-site form, recursive/embedded/imported/same-named-package/unexported-field types, seeded random declarations, and the bounded-exhaustive type corpus.",
+        text="Lean theorems (G/Worklist): the generate-until-done work list registers exactly the transitive closure of helper requests, generates each registered key exactly once, and terminates when that closure is finite — for every request function and plugin order; Props/C01r instantiates this with the CONCRETE helper-request relation of equal/compare/hash/deepcopy/clone/sort/keys (G/Requests.lean: finite closed key universe, termination without hypothesis) and the tie requires the real goderive to generate exactly the predicted closure in ~680 isolated one-call packages per seed and to call exactly the predicted helpers in the shared corpus. Type-correctness of the emitted text is decided by the real Go type checker on generated programs: all 33 plugins in every call-site form, recursive/embedded/imported/same-named-package/unexported-field types, seeded random declarations, and the bounded-exhaustive type corpus.",
         note="partial: 'type-checks' is decided by go vet on the generated corpus, not in Lean; types.TypeString printing trusted; name resolution soundness is C11's theorem",
         technique="Lean 4 proof of work-list closure/exactly-once/termination + compile oracle on generated programs",
         engine="lean-model + blackbox-compile", ref="DESIGN.md §6 C01"),
     "C02": dict(
         text="Lean theorems: the model of the emitted Equal (mirroring plugin/equal's dispatch) equals the independent structural-equality specification for every environment, supported type and well-typed value pair, without panic; component-position = top-level; the specification is an equivalence relation that ignores addresses, spare capacity and map insertion order. Tied to the current tree by running the real goderive on a bounded-exhaustive type corpus and diffing emitted code, model and spec on every pool pair and single-position mutation (exact match required).",
-        note="user Equal methods are opaque and not in the corpus",
+        note="user-declared Equal methods are modelled (S/Methods.EqualM, Props/C02c) with the method bodies the corpus emits; user DeepCopy/GoString methods are not",
         technique="Lean 4 proof (model = spec by induction on values) + differential correspondence model vs emitted code",
         engine="lean-model + t1-behaviour", ref="DESIGN.md §6 C02"),
     "C03": dict(
         text="Lean theorems: the model of the emitted Compare equals the value-directed lexicographic order cmpVal for all supported types and typed values without panic; cmpVal ranges over {-1,0,1}, is antisymmetric and transitive on NaN-free values of one type, is 0 exactly when structEq holds (maps: uniqueness of the sorted key sequence), and a single differing leaf / nil-ness / element / field / map value decides the order in the natural way. Tied by exact integer match of emitted code vs model vs spec on all pool pairs and mutations, plus Compare==0 <=> Equal on the emitted functions.",
-        note="sort.Slice/Strings/Ints/Float64s assumed to sort (the model sorts map keys itself); user Compare methods not in the corpus",
+        note="sort.Slice/Strings/Ints/Float64s assumed to sort (the model sorts map keys itself); user Equal/Compare methods modelled (Props/C03c): Compare==0 <=> Equal is checked where the methods come in pairs; the value-parameter case is known finding F40",
         technique="Lean 4 proof (model = cmpVal; total-order laws by induction) + differential correspondence",
         engine="lean-model + t1-behaviour", ref="DESIGN.md §6 C03"),
     "C04": dict(
         text="Lean theorems: for every supported type, structurally equal NaN-free values have the same model hash (floats via the +0 normalisation, maps via uniqueness of the sorted key sequence, skipped unexported fields only remove information); hashing never panics and ignores addresses, spare capacity and insertion order. Tied by EXACT uint64 match between emitted code and model on every pool value and mutation, Equal=>same-hash on the emitted functions over equality-preserving rewrites and all pool pairs, repeated and cross-process runs, argument observed unchanged.",
-        note="purity/repeatability are observed by the tie (a Lean function is pure by construction); sort.* trusted; user Hash methods not in the corpus",
+        note="purity/repeatability are observed by the tie (a Lean function is pure by construction); sort.* trusted; user Equal/Hash methods modelled (Props/C04c): Equal => same hash where every type declaring Equal also declares Hash",
         technique="Lean 4 proof (structEq => equal hash by induction) + exact-value differential correspondence",
         engine="lean-model + t1-behaviour", ref="DESIGN.md §6 C04"),
     "C05": dict(
